@@ -1574,32 +1574,37 @@ class Server:
 
     async def _start_passive_server(self, connection, handler_callback):
         if self.available_data_ports is not None:
-            viewed_ports = set()
-            while True:
-                try:
-                    priority, port = self.available_data_ports.get_nowait()
-                    if port in viewed_ports:
+            # ports found busy go back to the pool when the search is over:
+            # every port which is there is tried, and only once
+            busy = []
+            try:
+                while True:
+                    try:
+                        priority, port = self.available_data_ports.get_nowait()
+                    except asyncio.QueueEmpty:
                         raise errors.NoAvailablePort
-                    viewed_ports.add(port)
-                    passive_server = await self._start_server_or_release(
-                        functools.partial(
-                            self.available_data_ports.put_nowait,
-                            (priority, port),
-                        ),
-                        handler_callback,
-                        connection.server_host,
-                        port,
-                        ssl=self.ssl,
-                        **self._start_server_extra_arguments,
-                    )
-                    connection.passive_server_port = port
-                    break
-                except asyncio.QueueEmpty:
-                    raise errors.NoAvailablePort
-                except OSError as err:
-                    self.available_data_ports.put_nowait((priority + 1, port))
-                    if err.errno != errno.EADDRINUSE:
-                        raise
+                    try:
+                        passive_server = await self._start_server_or_release(
+                            functools.partial(
+                                self.available_data_ports.put_nowait,
+                                (priority, port),
+                            ),
+                            handler_callback,
+                            connection.server_host,
+                            port,
+                            ssl=self.ssl,
+                            **self._start_server_extra_arguments,
+                        )
+                    except OSError as err:
+                        busy.append((priority + 1, port))
+                        if err.errno != errno.EADDRINUSE:
+                            raise
+                    else:
+                        connection.passive_server_port = port
+                        break
+            finally:
+                for item in busy:
+                    self.available_data_ports.put_nowait(item)
         else:
             passive_server = await self._start_server_or_release(
                 lambda: None,
